@@ -35,6 +35,10 @@ def cases(tier, seed):
         for k in range(K):
             d = dict(c); d["chunk"] = [k, K]
             out.append(d)
+    if tier == "thorough":       # real AMReX output: a population the generator does not produce
+        for a in ("plt1_Y", "plt2_F"):
+            for k in range(8):
+                out.append({"asset": a, "sel_seed": seed * 17 + k, "pairs": 6, "chunk": [k, 8], "sample": 60})
     return out
 
 
@@ -72,14 +76,28 @@ def judge(rec, key, descr, nontriv, flags, v_nofail, v_fail, wit):
 
 def run_case(case, work, rec):
     rng = random.Random(case["sel_seed"] * 101 + case.get("chunk", [0])[0])
-    m, path = workload.build(case, work)
-    digest = common.sha(case["gen"])
-    rec.sample({"plotfile": gen.describe(m)})
-    if strict.flags(path, coords=True):
-        raise RuntimeError("generator output flagged by strict")
-    inf = mutate.info(path)
-    finest = m.nlevels - 1
-    sites = mutate.sites_c04(inf, coords=True)
+    if "asset" in case:
+        import shutil
+        path = os.path.join(work, case["asset"])
+        shutil.copytree(os.path.join(common.REPO, "test_assets", case["asset"]), path)
+        digest = case["asset"]
+        if strict.flags(path, coords=True):
+            raise RuntimeError("real asset flagged by strict: " + str(strict.flags(path, coords=True)))
+        inf = mutate.info(path)
+        finest = len(inf["levels"]) - 1
+        sites = mutate.sites_c04(inf, coords=True)
+        k, K = case["chunk"]
+        sites = random.Random(7).sample(sites, len(sites))[k::K][:case["sample"]]
+        case = dict(case); case["chunk"] = [0, 1]
+    else:
+        m, path = workload.build(case, work)
+        digest = common.sha(case["gen"])
+        rec.sample({"plotfile": gen.describe(m)})
+        if strict.flags(path, coords=True):
+            raise RuntimeError("generator output flagged by strict")
+        inf = mutate.info(path)
+        finest = m.nlevels - 1
+        sites = mutate.sites_c04(inf, coords=True)
     dst = os.path.join(work, "mut")
 
     def nontrivial(mu):
